@@ -9,6 +9,10 @@ namespace MechVerif.Prec
 
 def Tree.ops {α : Type} (t : Tree α) : List Op := t.tail.map (·.1)
 
+/-- the formatter's rendering of a formula tree (`term`/`factor` emitters): the first operand,
+    then (operator, operand)* in source order -/
+def fmt {α : Type} (t : Tree α) : α × Rest α := (t.first, t.tail)
+
 def WellGrouped {α : Type} : Tree α → Prop
   | .leaf _ => True
   | .node l o r => (∀ x ∈ l.ops, o.lvl ≤ x.lvl) ∧ (∀ x ∈ r.ops, o.lvl < x.lvl) ∧ WellGrouped l ∧ WellGrouped r
